@@ -43,6 +43,9 @@ fn custom_schemas(lit: &str) -> Vec<(String, RSchema)> {
     out.push(("all_in_build".to_string(), RSchema { core: base.clone(), extra_core: vec![V(RVar::Dev)], build: texts.clone() }));
     out.push(("text_first_in_core".to_string(), RSchema { core: [texts.clone(), base.clone()].concat(), extra_core: vec![], build: vec![] }));
     out.push(("text_only".to_string(), RSchema { core: vec![], extra_core: texts.clone(), build: texts.clone() }));
+    // a core that is not empty but holds no integer component: the release / major.minor.patch must still be there
+    out.push(("text_core_no_integer".to_string(), RSchema { core: texts.clone(), extra_core: vec![V(RVar::Epoch), V(RVar::PreRelease), V(RVar::Post), V(RVar::Dev)], build: texts.clone() }));
+    out.push(("literal_core".to_string(), RSchema { core: vec![Str(lit.to_string())], extra_core: vec![], build: vec![] }));
     out
 }
 
@@ -161,6 +164,18 @@ fn main() {
         for (name, s) in custom_schemas("lit") { judge_obj(&ctx, &name, &s, &v, "number", &format!("field{field}={n}"), false, &mut s3); }
     }}
 
+    // unset variables: every preset and custom schema with the primary components unset, with everything unset, and with
+    // only the secondary components set (a version must still come out well-formed: 0 / 0.0.0 stand in)
+    for (vname, v) in [("primaries_unset", RVars { major: None, minor: None, patch: None, ..base_vars() }), ("all_unset", RVars { custom: json!({}), ..Default::default() }),
+        ("only_secondaries", RVars { epoch: Some(2), pre: Some(("beta", None)), post: Some(4), dev: Some(7), custom: json!({}), ..Default::default() }), ("only_context", RVars { distance: Some(3), dirty: Some(true), bumped_branch: Some("main".into()), bumped_commit_hash: Some("gabcdef012345".into()), custom: json!({}), ..Default::default() })] {
+        s3.inc("numeric_cases");
+        for p in all_presets() {
+            let zv_vars = bind::vars(&v);
+            if let Ok(Ok(sc)) = catch(|| ZervSchemaPreset::from_str(p).map(|pp| pp.schema_with_zerv(&zv_vars))) { judge_obj(&ctx, p, &bind::rschema(&sc), &v, "unset", vname, false, &mut s3); }
+        }
+        for (name, sc) in custom_schemas("lit") { judge_obj(&ctx, &name, &sc, &v, "unset", vname, false, &mut s3); }
+    }
+
     // CLI layer (in-process run_version_pipeline): sources none and stdin, flags, --output-prefix, overrides/bumps
     let mut cli_jobs: Vec<(Vec<String>, Option<String>, &str, &str)> = vec![];
     let short_texts: Vec<String> = { let m = std::sync::Mutex::new(vec![]); for_each_string(&sigma10, 2, |x, _n, _st| m.lock().unwrap().push(x.to_string())); let mut v = m.into_inner().unwrap(); v.sort(); v };
@@ -237,7 +252,7 @@ fn main() {
     cov.evaluations = all.get("renders") + all.get("cli_runs") + all.get("rerender_checks");
     cov.traces_validated = cov.evaluations;
     cov.distinct_nontrivial = all.get("texts") + all.get("numeric_cases");
-    cov.rule = format!("every string over {sigma10:?} up to length {l} plus {} special texts (zero-padded digit runs around u32/u64, 300-char text, control characters, case-folding look-alikes, combining marks) placed in each of {} text positions in turn, rendered under every preset that prints the position (of 22) and 5 custom schemas (text components in core / extra_core / build / leading / text-only) in both formats via SemVer::from / PEP440::from; numbers [0,1,2^32-1,2^32,2^64-1] in 9 numeric variables; {} in-process CLI runs (sources none+stdin, --schema/--schema-ron, --custom, --output-prefix, overrides and bumps) and a binary slice; every --output-prefix over [space, v, TAB, -, é, 1] up to length 3 plus 11 special prefixes x version(none, stdin) / flow / render x both formats: stdout == prefix ++ unprefixed output. Oracle: ASCII + reference grammar (R-SV / R-PEP normal form) + accepted by zerv's own parser + re-render fixed point for presets. non-trivial = distinct texts / numeric cases", specials.len(), POSITIONS.len(), cli_jobs.len());
+    cov.rule = format!("every string over {sigma10:?} up to length {l} plus {} special texts (zero-padded digit runs around u32/u64, 300-char text, control characters, case-folding look-alikes, combining marks) placed in each of {} text positions in turn, rendered under every preset that prints the position (of 22) and 7 custom schemas (text components in core / extra_core / build / leading / text-only / a core without any integer component / a literal-only core); 4 unset-variable assignments under every preset and custom schema in both formats via SemVer::from / PEP440::from; numbers [0,1,2^32-1,2^32,2^64-1] in 9 numeric variables; {} in-process CLI runs (sources none+stdin, --schema/--schema-ron, --custom, --output-prefix, overrides and bumps) and a binary slice; every --output-prefix over [space, v, TAB, -, é, 1] up to length 3 plus 11 special prefixes x version(none, stdin) / flow / render x both formats: stdout == prefix ++ unprefixed output. Oracle: ASCII + reference grammar (R-SV / R-PEP normal form) + accepted by zerv's own parser + re-render fixed point for presets. non-trivial = distinct texts / numeric cases", specials.len(), POSITIONS.len(), cli_jobs.len());
     cov.exhaustive = true;
     cov.samples = vec![json!({"text":"é-0","position":"branch","schema":"standard-context"}), json!({"text":"00012345678901234567890123","position":"custom","schema":"all_in_extra_core"}), json!(cli_jobs[cli_jobs.len() / 2].0)];
     cov.set("clause_counts", all.to_json());
